@@ -263,11 +263,12 @@ open RsslVerif.Gen.SlotCompile RsslVerif.Model.SlotsCompile RsslVerif.Lemmas.Slo
     (`parse_attributes_for_global`, `parse_expr_as_u32`), the storage-class loop of `parse_globaltype` and the cbuffer
     path have the statement sequence `Model.SlotsFront` mirrors; the exporters read that bound module and list
     bound root definitions in order, grouped by set
-    (40 comparisons with the comment-stripped, whitespace-normalised current source). -/
+    (42 comparisons with the comment-stripped, whitespace-normalised current source; wave 5 added
+    `cbufferMemberLoopShape` and `optionsNeverReachBinding`). -/
 theorem compile_shape_as_modelled :
     compileShape = ⟨true, true, true, true, true, true, true, true, true, true, true, true, true, true, true, true,
                     true, true, true, true, true, true, true, true, true, true, true, true, true, true, true, true,
-                    true, true, true, true, true, true, true, true⟩ := by decide
+                    true, true, true, true, true, true, true, true, true, true⟩ := by decide
 
 /-- **Per-pipeline default group.**  For every module the type checker can hand to `compile()` (any declaration
     sequence, any list of pipelines) and every argument set: the call returns one result per requested pipeline
@@ -694,5 +695,124 @@ example : (match frontItems [.globals [] (some .Texture2D) [.static, .static, .e
       | .ok _ => none) = some (.modifierConflict "extern" "static") := by decide
 
 end PerDeclarator
+
+/-! ## Wave 5: arguments outside the four parameter sets, array typedefs, cbuffer members -/
+section Wave5
+open RsslVerif.Gen.SlotCompile RsslVerif.Model.SlotsCompile RsslVerif.Lemmas.SlotsCompile
+open RsslVerif.Model.SlotsFront RsslVerif.Lemmas.SlotsFront
+
+/-- **No fifth parameter set.**  Buffer addresses requested for a target other than Vulkan-flavoured HLSL: `compile`
+    refuses the arguments before it looks at the module, for every module and mode. -/
+theorem compile_refuses_buffer_address_off_vulkan (a : Args) (ir : Module)
+    (hba : a.supportBufferAddress = true) (ht : a.target ≠ .HlslForVulkan) :
+    compile a ir = .error .invalidArgs := by
+  unfold compile
+  have : (a.supportBufferAddress && a.target != Target.HlslForVulkan) = true := by
+    simp [hba, ht]
+  simp [this]
+
+/-- ... and therefore whatever `compile` returns was allocated with one of the four parameter sets the property
+    names (DirectX, Vulkan, Vulkan with buffer addresses, Metal). -/
+theorem returned_parameter_set_is_one_of_four {a : Args} {ir : Module} {outs : List Built}
+    (h : compile a ir = .ok outs) :
+    paramsFor a.target a.supportBufferAddress ∈
+      [⟨true, false, false, true⟩, ⟨false, false, false, true⟩, ⟨false, true, false, true⟩, ⟨false, false, true, false⟩] := by
+  cases hba : a.supportBufferAddress with
+  | false => cases ht : a.target <;> decide
+  | true =>
+    by_cases ht : a.target = .HlslForVulkan
+    · rw [ht]; decide
+    · rw [compile_refuses_buffer_address_off_vulkan a ir hba ht] at h; cases h
+
+example : (match compile ⟨.HlslForDirectX, true, .noPipeline⟩ (Module.fresh [] [] []) with
+    | .error e => some e
+    | .ok _ => none) = some .invalidArgs := by decide
+example : (compile ⟨.HlslForVulkan, true, .noPipeline⟩ (Module.fresh [] [] [])).toOption.isSome = true := by decide
+
+/-- **A declaration whose base type has no register class** (not an object, a non-resource object, or -- the class the
+    spelling matrix added -- an ARRAY typedef of a resource, `typedef Texture2D<float4> TA[2]; TA g : register(t0);`,
+    since the lookup is done on the declaration's base type): a declarator that carries any annotation is rejected,
+    whatever the attributes, the storage class and the registry are. -/
+theorem annotation_without_register_class_rejected {σ : Type} (isExtern : Bool) (attr : AttrResult)
+    (registry : List (GlobalVar σ)) (d : Declarator σ) (hne : d.annotations ≠ []) :
+    ∃ e, declaratorStep none isExtern attr registry d = .error e := by
+  unfold declaratorStep
+  split
+  · exact ⟨_, rfl⟩
+  · cases hd : d.annotations with
+    | nil => exact absurd hd hne
+    | cons x rest => cases x <;> simp [annotate]
+
+/-- ... and a declaration over such a base that IS accepted has no annotation on any declarator, so each of its globals
+    has the attributes' group or none. -/
+theorem accepted_without_register_class_has_no_annotation {σ : Type} (isExtern : Bool) (attr : AttrResult) :
+    ∀ (ds : List (Declarator σ)) (registry out : List (GlobalVar σ)),
+      declaratorLoop none isExtern attr registry ds = .ok out → ∀ d ∈ ds, d.annotations = [] := by
+  intro ds
+  induction ds with
+  | nil => intro _ _ _ d hd; cases hd
+  | cons d0 rest ih =>
+    intro registry out h d hd
+    simp only [declaratorLoop] at h
+    split at h
+    · cases h
+    · rename_i registry' hstep
+      have h0 : d0.annotations = [] := by
+        cases hd0 : d0.annotations with
+        | nil => rfl
+        | cons x xs =>
+          exfalso
+          obtain ⟨e, he⟩ := annotation_without_register_class_rejected isExtern attr registry d0 (by simp [hd0])
+          rw [he] at hstep; cases hstep
+      rcases List.mem_cons.mp hd with rfl | hmem
+      · exact h0
+      · exact ih registry' out h d hmem
+
+example : (match frontItems [.globals [.bindGroup 2] none [] [⟨"g", [.register ⟨some (.T, 0), none⟩], false, ⟨some 2, true⟩⟩]] with
+      | .error e => some e
+      | .ok _ => none) = some (.invalidRegisterAnnotation "g") := by decide
+
+/-- **Members of a cbuffer never touch its binding.**  Their annotations can only reject the block (a register or a
+    semantic on a member, a second packoffset); when they do not, the block's language-level binding is the one the
+    block has without looking at the members. -/
+theorem cbuffer_members_only_reject (name : String) (attrs : List Attr) (members : List (String × List Annotation))
+    (anns : List Annotation) {slot : LangBinding} (h : parseConstantBuffer name attrs members anns = .ok slot) :
+    memberLoop members = .ok () ∧ parseConstantBuffer name attrs [] anns = .ok slot := by
+  unfold parseConstantBuffer at h ⊢
+  split at h
+  · cases h
+  · rename_i attr hattr
+    split at h
+    · cases h
+    · rename_i hm
+      refine ⟨hm, ?_⟩
+      simpa [memberLoop] using h
+
+/-- a member that is accepted carries no register and no semantic -/
+theorem accepted_member_has_no_register (n : String) : ∀ (seen : Bool) (anns : List Annotation),
+    memberAnnotations n seen anns = .ok () → ∀ a ∈ anns, a = .packOffset := by
+  intro seen anns
+  induction anns generalizing seen with
+  | nil => intro _ a ha; cases ha
+  | cons x rest ih =>
+    intro h a ha
+    cases x with
+    | register r => simp [memberAnnotations] at h
+    | semantic => simp [memberAnnotations] at h
+    | packOffset =>
+      simp only [memberAnnotations] at h
+      split at h
+      · cases h
+      · rcases List.mem_cons.mp ha with rfl | hmem
+        · rfl
+        · exact ih true h a hmem
+
+example : (match parseConstantBuffer "cb" [.bindGroup 1] [("cb_v", [.register ⟨some (.B, 0), none⟩])] [] with
+    | .error e => some e
+    | .ok _ => none) = some (.unexpectedRegisterAnnotation "cb_v") := by decide
+example : (parseConstantBuffer "cb" [.bindGroup 1] [("cb_v", []), ("p", [.packOffset])] [.register ⟨none, some 2⟩]).toOption =
+    some ⟨some 1, none⟩ := by decide
+
+end Wave5
 
 end RsslVerif.Thm.C06
